@@ -35,14 +35,17 @@ Built == O.outcome = "ok"
 
 (* ------------------------------------------------------------------ C06 *)
 BuildX(p) ==
-  IF p.st # "ok" THEN [outcome |-> O.outcome, ekind |-> O.ekind, viol |-> {}, flagtree |-> FALSE,
+  IF p.st # "ok" THEN [outcome |-> O.outcome, ekind |-> O.ekind, viol |-> {}, flagtree |-> FALSE, oversized |-> FALSE,
                         dev23 |-> FALSE, dev24 |-> FALSE, devboth |-> FALSE]
   ELSE LET T == Strip(p.toks) IN
        [outcome |-> O.outcome, ekind |-> O.ekind, viol |-> ViolationsCF(T),
         flagtree |-> FlagBeforeLeadingTree(p.toks),
-        dev23 |-> ViolationsDev(T, {"rep_leaf_only"}) = {},
-        dev24 |-> ViolationsDev(T, {"rule5_leaf_only"}) = {},
-        devboth |-> ViolationsDev(T, {"rep_leaf_only", "rule5_leaf_only"}) = {}]
+        oversized |-> Oversized(T),
+        (* a deviation explains a build only if a documented rule is violated, the deviating definition *)
+        (* sees no violation, and the size limit is respected                                           *)
+        dev23 |-> ViolationsCF(T) # {} /\ ~Oversized(T) /\ ViolationsDev(T, {"rep_leaf_only"}) = {},
+        dev24 |-> ViolationsCF(T) # {} /\ ~Oversized(T) /\ ViolationsDev(T, {"rule5_leaf_only"}) = {},
+        devboth |-> ViolationsCF(T) # {} /\ ~Oversized(T) /\ ViolationsDev(T, {"rep_leaf_only", "rule5_leaf_only"}) = {}]
 
 BuildOK ==
   (st = "done" /\ Prop = "C06" /\ IsGlob /\ O.outcome # "panic") =>
